@@ -59,6 +59,30 @@ def encodeFrame (f : Frame) : Bytes :=
 inductive Dec (α : Type) | more | fail | ok (a : α) (rest : Bytes)
   deriving Repr
 
+/-- `FrameDecoder.parse_extended_payload_length` (after the control-frame check) -/
+def parseLen (len7 : Nat) (r : Bytes) : Dec Nat :=
+  if len7 = 126 then
+    (if r.length < 2 then .more
+     else if beVal (r.take 2) ≤ 125 then .fail        -- "used 2 bytes when 1 would have sufficed"
+     else .ok (beVal (r.take 2)) (r.drop 2))
+  else if len7 = 127 then
+    (if r.length < 8 then .more
+     else if beVal (r.take 8) ≤ 65535 then .fail      -- "used 8 bytes when 2 would have sufficed"
+     else if 9223372036854775808 ≤ beVal (r.take 8) then .fail   -- "non-zero MSB"
+     else .ok (beVal (r.take 8)) (r.drop 8))
+  else .ok len7 r
+
+/-- masking key (if announced) and the whole payload -/
+def takePayload (fin : Bool) (rsv opcode : Nat) (hasMask : Bool) (n : Nat) (r1 : Bytes) : Dec Frame :=
+  if hasMask then
+    (if r1.length < 4 then .more
+     else if (r1.drop 4).length < n then .more
+     else .ok { fin := fin, rsv := rsv, opcode := opcode, key := some (r1.take 4),
+                payload := mask (r1.take 4) ((r1.drop 4).take n) } ((r1.drop 4).drop n))
+  else
+    (if r1.length < n then .more
+     else .ok { fin := fin, rsv := rsv, opcode := opcode, key := none, payload := r1.take n } (r1.drop n))
+
 /-- `FrameDecoder.parse_header` + the whole payload (`process_buffer` once all of it is buffered).
     `client` is the role of the RECEIVING endpoint; `rsvOk opcode rsv` = the extensions accept
     these reserved bits (`extension_processing`). -/
@@ -75,33 +99,14 @@ def decodeFrame (client : Bool) (rsvOk : Nat → Nat → Bool) (bs : Bytes) : De
       let len7 := b1.toNat % 128
       if isControl opcode && decide (125 < len7) then .fail   -- "Control frame with payload len > 125"
       else
-        -- parse_extended_payload_length: (length, rest) | more | fail
-        let ext : Dec Nat :=
-          if len7 = 126 then
-            (if r.length < 2 then .more
-             else if beVal (r.take 2) ≤ 125 then .fail        -- "used 2 bytes when 1 would have sufficed"
-             else .ok (beVal (r.take 2)) (r.drop 2))
-          else if len7 = 127 then
-            (if r.length < 8 then .more
-             else if beVal (r.take 8) ≤ 65535 then .fail      -- "used 8 bytes when 2 would have sufficed"
-             else if 9223372036854775808 ≤ beVal (r.take 8) then .fail   -- "non-zero MSB"
-             else .ok (beVal (r.take 8)) (r.drop 8))
-          else .ok len7 r
-        match ext with
+        match parseLen len7 r with
         | .more => .more
         | .fail => .fail
         | .ok n r1 =>
           if !rsvOk opcode rsv then .fail                     -- "Reserved bit set unexpectedly"
           else if hasMask && client then .fail                -- "client received unexpected masked frame"
           else if !hasMask && !client then .fail              -- "server received unexpected unmasked frame"
-          else if hasMask then
-            (if r1.length < 4 then .more
-             else if (r1.drop 4).length < n then .more
-             else .ok { fin := fin, rsv := rsv, opcode := opcode, key := some (r1.take 4),
-                        payload := mask (r1.take 4) ((r1.drop 4).take n) } ((r1.drop 4).drop n))
-          else
-            (if r1.length < n then .more
-             else .ok { fin := fin, rsv := rsv, opcode := opcode, key := none, payload := r1.take n } (r1.drop n))
+          else takePayload fin rsv opcode hasMask n r1
   | _ => .more
 
 /-- all complete frames of a buffer, the unconsumed rest, and whether parsing failed -/
